@@ -135,7 +135,10 @@ def replay_case(chk, case, lib, tmp):
     brief = {k: case[k] for k in ("m", "t", "H", "ppp", "nmax") if k in case}
     frames = case["frames"]
     ss = make_snapshots([fr["pos"] for fr in frames], case["H"], B, case.get("ts"))
-    nbp, wtp = write_files(tmp, "a", [fr["nb"] for fr in frames], [fr["wt"] for fr in frames])
+    # the unit in which the weights are written is immaterial (w / sum|w|): 0.5, or - by the case's hash - very small / large
+    units = (0.5, 0.5, 0.5, 1e-10, 2.0 ** -40, 1e8)
+    wunit = units[(len(json.dumps(frames[0]["pos"])) + 7 * len(frames) + case.get("nmax", 0)) % len(units)]
+    nbp, wtp = write_files(tmp, "a", [fr["nb"] for fr in frames], [fr["wt"] for fr in frames], wscale=wunit)
     objs = {}
     for l in case["ls"]:
         boo, err = build(lib, ss, l, nbp, wtp, case["ppp"], case["nmax"])
@@ -323,7 +326,7 @@ def gen_trace(rng, lib, nobj, tmp):
                         frw.append([rng.choice([-1, 1]) * rng.randint(1, 9) if rng.random() < 0.3 else rng.randint(1, 9) for _ in row])
                     nb.append(frn)
                     wt.append(frw)
-                nbp, wtp = write_files(tmp, f"b{o}", nb, wt if weighted else None, wscale=rng.choice([1.0, 0.25, 0.1]))
+                nbp, wtp = write_files(tmp, f"b{o}", nb, wt if weighted else None, wscale=rng.choice([1.0, 0.25, 0.1, 1e-10, 1e-12, 1e8]))   # the weighted mean does not depend on the unit of the weights
             elif source == "nnearests":
                 nbp = os.path.join(tmp, f"b{o}.nn.dat")
                 lib["Nnearests"](ss, N=rng.randint(2, min(6, N - 2)), ppp=np.array(ppp), fnfile=nbp)
